@@ -1,4 +1,61 @@
-/-! oracle driver for the glob engine (to be written) -/
+import Spok.Judge.Glob
+/-! oracle driver for the glob engine (C05)
+
+case:  `T <tree> P <pattern>`
+  * `<tree>`: comma-separated `f:<path>` (regular file) / `d:<path>` (directory) entries, `-` = empty;
+    directories above an entry are implied; names use a safe alphabet (no blanks, commas, colons);
+  * `<pattern>`: the dependency string, verbatim.
+impl observation:  `OBS <e…>` first expansion in the order of `sf.Globs[pattern]`, `OBS2` a second fresh SpokFile,
+  `OBSB` the first SpokFile expanded again; `SEQ` = `OBS` (or `na` when the pattern has `{`), `SET` = sorted, duplicate-free.
+  Entries are `f:<rel>` / `d:<rel>`; `-` = none; `notglob` when spok does not treat the string as a glob.
+answer:  `SEQ … ; SET …` of the model `||` `C05=ok|FAIL|na` (the judge on the implementation's observation) -/
 namespace Spok.Oracle.Glob
-def handle (line : String) : String := "TODO " ++ line
+open Spok.Glob Spok.Judge
+
+def parsePath (s : String) : Path := (s.splitOn "/").map String.toList
+
+def parseEntry (s : String) : Option Visit :=
+  if s.startsWith "f:" then some (parsePath (s.drop 2).toString, false)
+  else if s.startsWith "d:" then some (parsePath (s.drop 2).toString, true)
+  else none
+
+def parseEntries (s : String) (sep : String) : Option (List Visit) :=
+  if s == "-" || s == "" then some [] else ((s.splitOn sep).filter (· ≠ "")).mapM parseEntry
+
+def showPath (p : Path) : String := if p.isEmpty then "." else "/".intercalate (p.map String.ofList)
+def showVisit (v : Visit) : String := (if v.2 then "d:" else "f:") ++ showPath v.1
+def showList (vs : List String) : String := if vs.isEmpty then "-" else " ".intercalate vs
+
+def insertStr (s : String) : List String → List String
+  | [] => [s]
+  | m :: ms => if s == m then m :: ms else if s < m then s :: m :: ms else m :: insertStr s ms
+def sortDedup (xs : List String) : List String := xs.foldr insertStr []
+
+def sect (secs : List String) (name : String) : Option String :=
+  (secs.find? (fun s => s.startsWith (name ++ " ") || s == name)).map fun s => ((s.drop (name.length)).toString.trimAscii).toString
+
+def handle (line : String) : String :=
+  match line.splitOn " | " with
+  | [inp, impl] =>
+    match (inp.splitOn " ").filter (· ≠ "") with
+    | ["T", tr, "P", ps] =>
+      match parseEntries tr "," with
+      | none => "BAD-CASE || C05=FAIL"
+      | some es =>
+        let t := Node.ofEntries es
+        if !isGlob ps.toList then "SEQ notglob ; SET notglob || C05=na"
+        else match Pattern.parse ps.toList with
+          | none => "SEQ unsupported ; SET unsupported || C05=na"
+          | some pat =>
+            let m := (expandGlob t pat).map showVisit
+            let seq := if pat.any Seg.hasAlt then "na" else showList m
+            let secs := (impl.splitOn " ; ").map (fun x => x.trimAscii.toString)
+            let rd (n : String) : Option (List Visit) := (sect secs n).bind (fun s => parseEntries s " ")
+            let v := match rd "OBS", rd "OBS2", rd "OBSB" with
+              | some o, some o2, some ob => if c05 t pat o o2 ob then "ok" else "FAIL"
+              | _, _, _ => "FAIL"
+            s!"SEQ {seq} ; SET {showList (sortDedup m)} || C05={v}"
+    | _ => "BAD-CASE || C05=FAIL"
+  | _ => "BAD-LINE || C05=FAIL"
+
 end Spok.Oracle.Glob
